@@ -486,6 +486,14 @@ func (bb *TwoDBoundingBox) UnmarshalJSON(data []byte) error {
 			if rawCorner, ok := rawCorners[key].([]interface{}); ok && len(rawCorner) > len(TwoDPoint{}) {
 				return fmt.Errorf(`%s should consist of %d numbers: %v`, key, len(TwoDPoint{}), rawCorner)
 			}
+			// a coordinate that is not a number (null) would silently be read as 0
+			if rawCorner, ok := rawCorners[key].([]interface{}); ok {
+				for _, rawCoordinate := range rawCorner {
+					if _, ok := rawCoordinate.(float64); !ok {
+						return fmt.Errorf(`%s should consist of numbers: %v`, key, rawCorner)
+					}
+				}
+			}
 		}
 	}
 
